@@ -187,7 +187,13 @@ impl Command {
                 where_clause: None,
                 limit: None,
                 offset: None,
-                order_by: None,
+                // Event ids increase in append order within a shard and a context lives on
+                // one shard, so this yields the context's events in the order they were stored
+                // wherever each one currently resides (memtable, passive buffer, segment).
+                order_by: Some(OrderSpec {
+                    field: "event_id".to_string(),
+                    desc: false,
+                }),
                 picked_zones: None,
                 return_fields: return_fields.clone(),
                 link_field: None,
